@@ -46,6 +46,7 @@ class History:
         log = []            # every assert command that reached `assertions.push`: (uid, sx stripped, accepted)
         uid = 0
         k = 0
+        minlevel = 0
         for c in self.cmds:
             if not isinstance(c, list) or not c:
                 continue
@@ -88,10 +89,12 @@ class History:
                 for _ in range(int(c[1]) if len(c) > 1 else 1):
                     if len(frames) > 1:
                         frames.pop()
+                        minlevel = min(minlevel, len(frames) - 1)
             elif h in ("check-sat", "get-interpolants"):
                 k += 1
                 self.queries.append(dict(k=k, kind=h, cmd=c, current=[x for f in frames for x in f], sig=sig,
-                                         opts=dict(opts), log=list(log), level=len(frames) - 1))
+                                         opts=dict(opts), log=list(log), level=len(frames) - 1, minlevel=minlevel))
+                minlevel = len(frames) - 1
         self.sig = sig
 
 
@@ -234,6 +237,14 @@ class Judge:
 
     def unsat(self, sig, logic, decls, forms):
         lg = "QF_UF" if logic == "QF_BOOL" else logic
+        for attempt in range(40):
+            try:
+                return sc.judge_unsat(sig, lg, decls, forms)
+            except FileNotFoundError:
+                # the shared evaluator binary is being rebuilt by a concurrent check (vlib.build_extracted): wait for it
+                import time
+                time.sleep(3)
+                sc._sem_exe = None
         return sc.judge_unsat(sig, lg, decls, forms)
 
     def script(self, text, meta=None, origin="gen"):
@@ -251,8 +262,13 @@ class Judge:
         self._decls = decls
         status = None
         dead = False
+        unsat_level = None          # deepest level at which an unsat answer was given and whose frame may since have been popped
+        popped_unsat = False
         for q in hist.queries:
             k = q["k"]
+            if unsat_level is not None and q["minlevel"] < unsat_level:
+                popped_unsat = True
+            q["after_popped_unsat"] = popped_unsat
             got = R["seg"].get(k)
             if got is None:
                 if not dead:
@@ -261,7 +277,9 @@ class Judge:
                         ctx.count("timeout-at:%s" % q["kind"])
                         continue
                     if q["kind"] == "get-interpolants" and status == "unsat" and k in R["started"]:
-                        self.rejected(q, hist, logic, text, "crash(rc=%s)" % R["rc"], R)
+                        m = re.search(r"what\(\):\s*(.*)", R["err"])
+                        msg = re.sub(r"[^A-Za-z ]", "", m.group(1))[:50].strip().replace(" ", "-") if m else "rc=%s" % R["rc"]
+                        self.rejected(q, hist, logic, text, "crash:%s" % msg, R)
                     else:
                         ctx.count("solver-died-at:%s(rc=%s)" % (q["kind"], R["rc"]))
                 continue
@@ -272,6 +290,8 @@ class Judge:
             if q["kind"] == "check-sat":
                 status = next((s for s in reversed(sxs) if s in ("sat", "unsat", "unknown")), None)
                 ctx.count("check-sat:%s" % status)
+                if status == "unsat" and q["level"] > 0:
+                    unsat_level = q["level"] if unsat_level is None else max(unsat_level, q["level"])
                 continue
             # ---- get-interpolants
             groups = parse_groups(q["cmd"])
@@ -331,7 +351,9 @@ class Judge:
                 if self.z3_unsat(logic, decls, bodies) or self.z3_unsat(logic, decls, [["not", ["and"] + bodies]]):
                     tags.append("and-group-folds")
                     break
-        if q["level"] > 0 or any(c[0] == "pop" for c in hist.cmds if isinstance(c, list) and c):
+        if q.get("after_popped_unsat"):
+            tags.append("after-popped-unsat")
+        elif q["level"] > 0 or any(c[0] == "pop" for c in hist.cmds if isinstance(c, list) and c):
             tags.append("incr")
         return tags + option_tags(q, logic)
 
